@@ -59,6 +59,24 @@ impl Property for C12 {
                 }
             }
         }
+        for s in [TID_D, TID_A] {
+            for d in 0..NT {
+                if !sh.mine() {
+                    continue;
+                }
+                for n in [64usize, 128, 1024, 1343, 2560, 2561, 4097, 8193] {
+                    for a in long_values(n) {
+                        for prov in [Prov::Canon, Prov::Spare(200), Prov::Spare(4200), Prov::Spare(9000)] {
+                            for by_value in [false, true] {
+                                if !f(C12Case::Convert { a: Operand { ty: s, bits: a.clone(), prov: prov.clone() }, dst: d, by_value }) {
+                                    return;
+                                }
+                            }
+                        }
+                    }
+                }
+            }
+        }
         for s in 0..NT {
             if !sh.mine() {
                 continue;
